@@ -122,6 +122,23 @@ def check(an, rep, tier):
             else:
                 check_tt_returns(
                     rep, [r], lambda run: [Poly.sym('mnew')] * run.d)
+    from fractions import Fraction
+    for r in runs:
+        if r.qualname == 'func.func_diff_matrix' and \
+                r.variant.get('a') == 'len:L':
+            rv = r.result
+            if rv.k == 'list' and rv.items is not None:
+                for k, D in enumerate(rv.items):
+                    deg = (D.deg or {}).get('L') if D.deg is not None else None
+                    want = Fraction(-(k + 1))
+                    rep.add('U-deg', r.qualname, 'order-%d matrix scales '
+                            'with (b-a)**%d' % (k + 1, -(k + 1)),
+                            'ok' if deg == want else
+                            ('violation' if deg is not None else 'unknown'),
+                            '' if deg == want else 'the order-%d '
+                            'differentiation matrix is homogeneous of degree '
+                            '%s in the box length, expected %s' % (k + 1, deg,
+                                                                   want))
     _two_sided(prog, rep, 'func.func_get')
     _two_sided(prog, rep, 'func_full.func_get_full')
 
@@ -144,6 +161,7 @@ def check(an, rep, tier):
     if tier == 'thorough':
         from .. import rules_formula
         rules_formula.check_cheb_siblings(prog, rep)
+    rep.floor('U-deg', 3, 'differentiation matrix scaling')
     rep.floor('X1-bind', 60, 'external calls bound')
     rep.floor('S-einsum', 3, 'coefficient contractions')
     rep.floor('S-ret', 8, 'TT results')
